@@ -96,3 +96,50 @@ pub fn c04_one_op() {
     // accounting end-to-end (C15): nothing stays pending with stable membership
     vsym::check("converge.nothing-pending", cl.nodes[0].dbs.pending_opps.read().unwrap().len() == 0);
 }
+
+/// snapshots run on every node, each over its OWN disk (the file-system model is swapped per node), interleaved with client
+/// operations on the primary: write, snapshot, remove, snapshot (incremental or space-reclaiming), write again. After every step
+/// the nodes agree on the key: same value, same version, same live / removed status as seen through get-safe.
+fn on_disk(cl: &mut Cluster, disks: &mut Vec<Vec<vstd::vfs::Node>>, i: usize) {
+    vstd::vfs::swap_fs(&mut disks[i]);
+    crate::disk_ops::snapshot_all_pendding_dbs(&cl.nodes[i].dbs);
+    vstd::vfs::swap_fs(&mut disks[i]);
+}
+fn safe_pair(dbs: &Arc<Databases>) -> (String, i32) {
+    let (mut c, _rx) = new_client();
+    process_request("use-db d tok", dbs, &mut c);
+    match process_request("get-safe k", dbs, &mut c) { Response::Value { key: _, value, version } => (value, version), _ => (String::from("?"), -9) }
+}
+pub fn c04_snapshot_history() {
+    let secondaries = vsym::param("secondaries", 1);
+    let mut cl = mk_cluster(secondaries);
+    let mut disks: Vec<Vec<vstd::vfs::Node>> = Vec::new();
+    let mut i = 0; while i < cl.nodes.len() { disks.push(Vec::new()); i += 1; }
+    let (mut admin, mut arx) = admin_client(&cl.nodes[0].dbs);
+    process_request("create-db d tok", &cl.nodes[0].dbs, &mut admin);
+    vsym::assume(cl.settle(80, false).is_some());
+    process_request("use-db d tok", &cl.nodes[0].dbs, &mut admin);
+    let steps = vsym::param("steps", 5);
+    let mut s = 0;
+    while s < steps {
+        let op = vsym::choice("step", 5);
+        vsym::tag(&["s", &s.to_string(), "=", &op.to_string()].concat());
+        match op {
+            0 => { process_request(&["set k w", &s.to_string()].concat(), &cl.nodes[0].dbs, &mut admin); }
+            1 => { process_request("remove k", &cl.nodes[0].dbs, &mut admin); }
+            2 => { process_request("increment k 2", &cl.nodes[0].dbs, &mut admin); }
+            _ => { process_request(if op == 3 { "snapshot false" } else { "snapshot true" }, &cl.nodes[0].dbs, &mut admin); }
+        }
+        vsym::check("snapshot-history.quiesces", cl.settle(200, false).is_some());
+        if op >= 3 { let mut n = 0; while n < cl.nodes.len() { on_disk(&mut cl, &mut disks, n); n += 1; } vsym::cover("snapshot-history.snapshots-ran", true); }
+        let p = safe_pair(&cl.nodes[0].dbs);
+        let mut n = 1;
+        while n < cl.nodes.len() {
+            let q = safe_pair(&cl.nodes[n].dbs);
+            vsym::check("snapshot-history.same-value-as-primary", q.0 == p.0);
+            vsym::check("snapshot-history.same-version-as-primary", q.1 == p.1);
+            n += 1;
+        }
+        s += 1;
+    }
+}
